@@ -436,14 +436,19 @@ def check_property(prop, tier='quick', only=None, jobs=None, verbose=False, seed
         lines.append('CHECKER-CRASH property=%s obligation=%s %s' % (prop, oname, o.get('detail', '')[-1500:]))
     n_obl = len(obligations)
     wall = time.time() - t_start
+    if bounded_info:
+        for hn, st in list(bounded_info.get('per_harness', {}).items())[:4]:
+            samples.append({'bounded_harness': hn, 'concrete_runs': st['runs'], 'checks_evaluated': st['checks'],
+                            'aborted': st['aborted'], 'seeds': bounded_info.get('seeds')})
+    nontrivial_runs = (bounded_info.get('runs', 0) - bounded_info.get('aborted', 0)) + (cover.get('runs', 0) or 0) - (cover.get('aborted', 0) or 0)
     fuc = sorted({f for h in hs for f in h.fuc})
     all_ok = (discharged == n_obl and not violations and not undecided and not crashed)
     level = 'proof' if (discharged == n_obl and n_obl > 0) else 'other'
     try:
         man = json.load(open(os.path.join(VERIF, 'MANIFEST.json')))
         for c_ in man.get('checks', []):
-            if c_['property_id'] == prop and c_['level_claimed']['category'] == 'other':
-                level = 'other'      # the property is claimed at a weaker level (large bounded part): evidence says the same
+            if c_['property_id'] == prop and c_['level_claimed']['category'] in ('other', 'exploration'):
+                level = c_['level_claimed']['category']      # claimed at a weaker level (large bounded part): evidence says the same
     except Exception:
         pass
     ev = {
@@ -464,9 +469,10 @@ def check_property(prop, tier='quick', only=None, jobs=None, verbose=False, seed
             'known_findings': [k for k, _ in known_hits],
             'undecided': [k for k, _ in undecided], 'samples': samples or [{'obligation': k} for k in list(obligations)[:3]],
             'evaluations': max(1, npaths + cover.get('runs', 0) + bounded_info.get('runs', 0)),
-            'distinct_nontrivial': max(2, n_obl),
-            'rule': 'one case = one (harness, variant, path) symbolic execution or one concrete cover/bounded run; '
-                    'distinct_nontrivial counts distinct named obligations',
+            'distinct_nontrivial': max(n_obl, nontrivial_runs) if level in ('exploration',) else max(2, n_obl),
+            'rule': 'one case = one (harness, variant, path) symbolic execution or one concrete cover/bounded run (distinct seed or skolem '
+                    'choice, not aborted by its precondition); distinct_nontrivial counts distinct named obligations (proof/other) or '
+                    'distinct non-aborted concrete runs (exploration)',
         },
         'assumptions': GLOBAL_ASSUMPTIONS + assumed,
     }
